@@ -24,6 +24,7 @@ use std::panic::AssertUnwindSafe;
 
 use rs_matter::transport::network::btp::Btp;
 use rs_matter::transport::network::BtAddr;
+use rs_matter::utils::storage::RingBuf;
 use rsm_harness::{catch, Digest, Rng};
 
 fn addr(n: u8) -> BtAddr {
@@ -227,6 +228,42 @@ impl Pair {
     }
 }
 
+/// the real `RingBuf<N>` driven op by op: p<bytes> push, o<n> pop into n bytes, c clear
+fn run_ring<const N: usize>(toks: &[&str], out: &mut String) {
+    let mut rb = RingBuf::<N>::new();
+    for t in toks {
+        let res = catch(AssertUnwindSafe(|| {
+            let mut s = String::new();
+            match t.as_bytes()[0] {
+                b'p' => {
+                    rb.push(&parse_bytes(&t[1..]));
+                    s.push('l');
+                }
+                b'o' => {
+                    let n: usize = t[1..].parse().unwrap();
+                    let mut buf = vec![0u8; n];
+                    let k = rb.pop(&mut buf);
+                    write!(s, "b{}", hex(&buf[..k])).unwrap();
+                }
+                b'c' => {
+                    rb.clear();
+                    s.push('l');
+                }
+                _ => panic!("harness: bad ring op {t}"),
+            }
+            write!(s, "@{}.{}{}/{}", rb.len(), rb.is_full() as u8, rb.is_empty() as u8, rb.free()).unwrap();
+            s
+        }));
+        match res {
+            Ok(s) => write!(out, " {}", s).unwrap(),
+            Err(_) => {
+                out.push_str(" P");
+                break;
+            }
+        }
+    }
+}
+
 fn run_line(line: &str, out: &mut String) {
     let f: Vec<&str> = line.split(' ').filter(|x| !x.is_empty()).collect();
     match f[0] {
@@ -269,6 +306,19 @@ fn run_line(line: &str, out: &mut String) {
             } else {
                 writeln!(out, " | {} {}", full_str(&p.a), full_str(&p.b)).unwrap();
             }
+        }
+        "R" => {
+            write!(out, "R {}", f[1]).unwrap();
+            match f[2] {
+                "1" => run_ring::<1>(&f[3..], out),
+                "2" => run_ring::<2>(&f[3..], out),
+                "5" => run_ring::<5>(&f[3..], out),
+                "16" => run_ring::<16>(&f[3..], out),
+                "64" => run_ring::<64>(&f[3..], out),
+                "3166" => run_ring::<3166>(&f[3..], out),
+                _ => panic!("harness: ring capacity {} not instantiated", f[2]),
+            }
+            out.push('\n');
         }
         _ => panic!("harness: bad line {line}"),
     }
@@ -721,6 +771,42 @@ impl Gen {
         }
     }
 
+    /// stream "rb": the ring buffer on its own, including pushes beyond its capacity
+    fn ring_cases(&mut self, n: u64) {
+        for k in 0..n {
+            let cap = *self.rng.pick(&[1u64, 2, 5, 16, 64, 3166]);
+            let mut ops = vec![];
+            let nops = self.rng.range(5, 60);
+            for _ in 0..nops {
+                match self.rng.below(10) {
+                    0..=4 => {
+                        let l = match self.rng.below(8) {
+                            0 => 0,
+                            1 => cap,
+                            2 => cap + self.rng.below(4),
+                            3 => self.rng.range(1, 2 * cap + 2),
+                            _ => self.rng.range(1, cap.min(300)),
+                        };
+                        ops.push(format!("p#{}.{}", l, self.rng.below(256)));
+                    }
+                    5..=8 => {
+                        let l = match self.rng.below(5) {
+                            0 => 0,
+                            1 => 1,
+                            2 => cap + 1,
+                            _ => self.rng.range(1, cap.min(300) + 1),
+                        };
+                        ops.push(format!("o{}", l));
+                    }
+                    _ => ops.push("c".into()),
+                }
+            }
+            self.count("cases_rb");
+            *self.stats.entry("ops_total".into()).or_insert(0) += ops.len() as u64;
+            self.lines.push(format!("R rb{} {} {}", k, cap, ops.join(" ")));
+        }
+    }
+
     // -------------------------------------------------------------- two ends
     fn pair_case(&mut self, style: u64, target_ops: u64) {
         let ga = self.gatt_pick();
@@ -833,6 +919,7 @@ fn gen(tier: &str, seed: u64, outdir: &str) {
     g.header_sweep(if thorough { 4 } else { 1 });
     g.handshake_sweep();
     g.wrap_streams();
+    g.ring_cases(if thorough { 4000 } else { 600 });
     g.hostile_random(if thorough { 12000 } else { 2500 }, if thorough { 350 } else { 250 });
     let pairs = if thorough { 2400 } else { 400 };
     for k in 0..pairs {
